@@ -22,7 +22,7 @@ def run_mpd(prop, tier, dense):
     trace = c.work / "mpd.ndjson"
     args = ["-out", trace, "-work", c.work, "-seed", c.seed] + (["-thorough"] if tier == "thorough" else []) + (["-dense", "-nofetch"] if dense else [])
     st = vlib.run_driver(drive, args, timeout=3000)
-    r, lines = c.validate_trace_parallel("LiveMpd_Trace", trace, chunks=12, timeout=3000)
+    r, lines = c.validate_trace_parallel("LiveMpd_Trace", trace, chunks=12 if tier == "quick" else 60, workers=14, timeout=3000)
     events = vlib.read_ndjson(trace)
     hdr, last_mpd = None, None
     ctx = {}
